@@ -95,6 +95,9 @@ fn session(ops: &[Value], dialect: Dialect, extra_texts: &[String], rng: &mut Rn
                         let sp = x.span();
                         let key = json!({"s": sp.start, "e": sp.end, "msg": x.message()});
                         let ident_v = lint_keys(&mut l, &text, lang).into_iter().find(|k| k["s"] == sp.start && k["e"] == sp.end && k["msg"] == x.message()).map(|k| k["ident"].clone()).unwrap_or(json!(""));
+                        // the same text may be looked at in the other language between getting the lint and ignoring it
+                        // (this must be the last call before ignore_lint)
+                        if op["mix"] == true { let _ = l.lint(text.clone(), if matches!(lang, Language::Plain) { Language::Markdown } else { Language::Plain }); }
                         l.ignore_lint(text.clone(), x);
                         out.push(json!({"ev": "Ignore", "text": text, "lang": lang_name(lang), "key": key, "ident": ident_v}));
                         out.push(lint_event(&mut l, &text, lang));
@@ -176,14 +179,16 @@ pub fn main(a: &Args) {
     // random sessions over real texts in both languages
     for i in 0..a.num("sessions", 100) as usize {
         let mut ops: Vec<Value> = Vec::new();
-        let texts: Vec<String> = (0..3).map(|k| if k == 0 { crate::inputs::compose(&corpus, &mut rng) } else { rng.pick(&corpus[..]).clone() }).collect();
+        let mut texts: Vec<String> = (0..3).map(|k| if k == 0 { crate::inputs::compose(&corpus, &mut rng) } else { rng.pick(&corpus[..]).clone() }).collect();
+        // markup right next to flagged words: the two languages tokenise the neighbourhood differently
+        if i % 2 == 0 { texts.push(format!("A *teh* and _errorz_ here with `wich` and **an apple**. {}", rng.pick(&corpus[..]))); }
         for _ in 0..rng.range(3, 8) {
             let t = rng.pick(&texts[..]).clone();
             let lang = if rng.chance(1, 2) { "md" } else { "plain" };
             match rng.below(9) {
                 8 => { let o = ["export_ignored", "clear_ignored", "import_ignored"][rng.below(3)]; ops.push(json!({"op": o})) }
                 0 | 1 | 2 => ops.push(json!({"op": "lint", "text": t, "lang": lang})),
-                3 | 4 => ops.push(json!({"op": "ignore", "text": t, "lang": lang, "at": rng.below(5)})),
+                3 | 4 => ops.push(json!({"op": "ignore", "text": t, "lang": lang, "at": rng.below(5), "mix": rng.chance(1, 2)})),
                 5 => {
                     // import a word taken from the text (possibly a flagged one) and a re-cased variant
                     let ws: Vec<&str> = t.split(|c: char| !c.is_alphanumeric()).filter(|w| w.len() > 3).collect();
